@@ -247,7 +247,7 @@ def model_gen(suite, seed, n, extra=()):
     return [l for l in p.stdout.split("\n") if l]
 
 
-CASE_LIMIT_S = 120   # a single case (on real sockets: a query that waits for ever) gets this long, then the worker is killed
+CASE_LIMIT_S = 60   # a single case (on real sockets: a query that waits for ever) gets this long, then the worker is killed
 
 
 class _Watched:
@@ -294,6 +294,7 @@ def run_impl(lines, tag="h"):
     out, panics = {}, {}
     todo = list(lines)
     rounds = 0
+    stalls = 0
     while todo:
         rounds += 1
         prog = os.path.join(WORK, f"progress_{tag}_{os.getpid()}")
@@ -321,10 +322,17 @@ def run_impl(lines, tag="h"):
                 break
             culprit = rest_ids[0]
         out[culprit] = "HANG" if p.stalled else "ABORT"
+        stalls += 1 if p.stalled else 0
         panics[culprit] = (f"the case did not end within {CASE_LIMIT_S} s (worker killed)" if p.stalled
                            else f"worker exited with status {p.returncode}: {p.stderr[-300:].strip()}")
         k = ids.index(culprit)
         todo = [l for l in todo[k + 1:]]
+        if stalls >= 3:
+            # three cases already waited for ever: the rest of this batch is not run (each would cost the full limit again);
+            # what was found is reported
+            for l in todo:
+                out.setdefault(l.split(" ", 1)[0], "NOT-RUN after three cases that did not end")
+            break
         if rounds > 200:
             raise RuntimeError("too many worker restarts")
     for f in (os.path.join(WORK, f"progress_{tag}_{os.getpid()}"), os.path.join(WORK, f"panics_{tag}_{os.getpid()}")):
